@@ -136,7 +136,7 @@ func (w *World) kbUpdate(o *Obs) {
 		if s == nil || (s.Status != "valid" && s.Status != "maybe") {
 			continue
 		}
-		uidPut, hasUID := o.sessPut("uid")
+		uidPut, hasUID := w.loginPut(o)
 		switch {
 		case p.Role == "otp" && st.Kind == "otp_login":
 			if s.Acct != o.Acct || s.Acct < 0 {
@@ -174,8 +174,12 @@ func (w *World) kbUpdate(o *Obs) {
 			pid := w.Accts[acting].PID
 			before, after := o.RowsBefore[pid], o.RowsAfter[pid]
 			changed := before != nil && after != nil && before.SMSPhone != after.SMSPhone
-			if hasUID && uidPut == pid && st.Kind == "sms_validate" || changed {
+			if hasUID && uidPut == pid && st.Kind == "sms_validate" {
 				s.Status = "spent"
+			} else if changed {
+				// used for enrolment / removal: the statements only bound
+				// login uses
+				s.Status = "maybe"
 			}
 		case p.Role == "token" && s.Kind == "confirm" && st.Kind == "confirm":
 			if s.Acct < 0 {
@@ -206,7 +210,7 @@ func (w *World) kbUpdate(o *Obs) {
 			if w.Cfg.hasSetup("expire") || !w.Cfg.hasModule("remember") {
 				continue
 			}
-			if hasUID && uidPut == w.Accts[s.Acct].PID {
+			if raw, ok := hasPut(o.SessEvents, "uid"); ok && raw == w.Accts[s.Acct].PID {
 				s.Status = "spent"
 			} else {
 				s.Status = "maybe"
@@ -259,7 +263,7 @@ func (w *World) kbUpdate(o *Obs) {
 	}
 
 	// new remember cookie in the jar
-	if v := o.CookAfter["rm"]; v != "" && v != o.CookBefore["rm"] && kb.find("rm", v) == nil {
+	if v, put := hasPut(o.CookEvents, "rm"); o.IsHTTP && put && v != "" && o.CookAfter["rm"] == v && kb.find("rm", v) == nil {
 		a := w.acctByPID(o.uidAfter())
 		kb.addSecret(&Secret{Kind: "rm", Acct: a, Browser: st.B, Value: v})
 	}
